@@ -209,7 +209,7 @@ class PoolRun(object):
             "nb_pending": p._ThreadPool__nb_pending_task,
             "qmutex": (self._thr(mo.name)[1] if mo is not None else None),
             "starts": [t["begins"] for t in self.tasks],
-            "done": [bool(t["future"]._done_event._EventData__event._flag) for t in self.tasks],
+            "done": [bool(getattr(getattr(t["future"]._done_event, "_EventData__event", None), "_flag", False)) for t in self.tasks],
         }
 
     def _scan_queue(self):
